@@ -13,7 +13,7 @@
    delivered to the state machine, membership included) and [pending] (the flag above).
    The voters a node counts are a function of the applied prefix of its log:
        cfg s i = cfg_of (firstn (applied s i) (log i))
-   [cfg_of] is a parameter: the membership the replicated state machine computes from a
+   [cfg_of] is an argument of the model: the membership the replicated state machine computes from a
    log prefix (internal/rsm/membership.go, C07: identical on all replicas because it is
    a function of the applied entries only, rejected changes included); [is_cc] tells
    config change entries from others.  The proofs need (Proofs/RaftNetCfg.v):
